@@ -227,6 +227,10 @@ def build_events(spec, evs, shift=0, order=None):
     if how == "mixed":
         # some events one by one (in the generated, non-chronological order), the rest in one batch
         k = max(1, len(events) * int(spec.get("mixed_share", 1)) // 4)
+        if spec.get("mixed_k"):
+            # three to five events one by one (enough for an unsorted heap array), then a batch
+            # that is larger than what the queue holds
+            k = min(int(spec["mixed_k"]), max(1, (len(events) - 1) // 2))
         for e in events[:k]:
             q.add_event(e)
         q.add_events(events[k:])
@@ -975,6 +979,14 @@ def scenarios(
     finite_max = sched_kind == "sorted" or not unlimited
     stations = [draw(station_specs(i, station_kinds, finite_max=finite_max)) for i in ids]
     cons = draw(constraint_lists(stations, max_constraints, limits))
+    if extras and n >= 2 and max_constraints > 0 and draw(st.integers(0, 7)) == 0:
+        # a single-phase site (every station on one angle) with a differential protection: the
+        # current through station x minus the current through station y is limited in magnitude
+        ang = draw(st.sampled_from([0.0, 0, 30.0, -90.0, 180.0]))
+        for stn in stations:
+            stn["phase"] = ang
+        x, y = stations[0]["id"], stations[1]["id"]
+        cons = [{"name": "differential", "limit": draw(st.sampled_from([6.0, 10.0, 20.0])), "coeffs": {x: 1.0, y: -1.0} if draw(st.booleans()) else {x: -1.0, y: 1.0}}] + cons
     if sched_kind == "always_max":
         # "exact" family: oversized ideal batteries and huge requests, so that an EV draws
         # current in every period in which it is connected
@@ -996,7 +1008,7 @@ def scenarios(
     bulk_add = draw(st.sampled_from([True, False, "mixed", "mixed"]))
     # with events added partly singly and partly in one batch, more stand-alone recompute events
     # make for more ways the two groups can interleave
-    recomputes = draw(st.lists(st.integers(0, last + 3), max_size=8 if bulk_add == "mixed" else 3))
+    recomputes = draw(st.lists(st.integers(0, last + 3), min_size=4 if bulk_add == "mixed" else 0, max_size=8 if bulk_add == "mixed" else 3))
     inert = draw(st.lists(st.integers(0, last + 2), max_size=2)) if extras and draw(st.integers(0, 4)) == 0 else []
     if sched_kind == "scripted":
         sch = draw(scripted_schedulers(stations, max_len=sched_max_len))
@@ -1061,6 +1073,7 @@ def scenarios(
         "event_order": list(draw(st.permutations(range(nev)))),
         "bulk_add": bulk_add,
         "mixed_share": draw(st.integers(1, 2)),
+        "mixed_k": draw(st.sampled_from([None, 3, 4, 5])),
         "scheduler": sch,
         "zs": draw(st.lists(st.sampled_from([0.0, 0.3, -0.3, 1.0, -1.0, 3.0, -3.0]), min_size=1, max_size=6)),
         # the simulator keeps the returned mapping object itself in schedule_history, so a scheduler
@@ -1137,6 +1150,8 @@ def scenario_labels(spec):
         labels.add("sessions_added_while_the_run_is_in_progress")
     if spec.get("peek"):
         labels.add("inspected_through_the_interface_before_run")
+    if len(spec["stations"]) >= 2 and len({float(x["phase"]) for x in spec["stations"]}) == 1:
+        labels.add("single_angle_site")
     if spec.get("stretch", 1) > 1:
         labels.add("long_run_hundreds_of_periods")
     if max(len(v) for v in by_station.values()) >= 12:
